@@ -348,6 +348,15 @@ def make_strategy(script: dict):
                         self.stop_loss = sl
                     if tp:
                         self.take_profit = tp
+                if self.s.get('on_open_add') and self.exchange_type != 'spot' and not (
+                        self.s.get('p_open_liquidate') and self.position.is_close):
+                    # scale in at the market from inside the fill callback (re-declared entry at the current price)
+                    dec = self.s.get('qty_dec', 3)
+                    qa = max(round(abs(self.position.qty) * self.s['on_open_add'], dec), 10 ** -dec)
+                    if self.is_long:
+                        self.buy = [(qa, self.price)]
+                    elif self.is_short:
+                        self.sell = [(qa, self.price)]
                 self._observe('on_open_position', decl=self._decl(), o=TR.oid(order))
                 self._maybe_raise('on_open_position')
             finally:
